@@ -791,7 +791,8 @@ def op_chart_fmt(run):
         elif k == "ticklabels":
             tl = ax.tick_labels
             tl.font.size = Pt(8)
-            tl.number_format = r.choice(["0.0", "General", '#,##0"u"'])
+            if r.random() < 0.7:
+                tl.number_format = r.choice(["0.0", "General", '#,##0"u"'])
             tl.number_format_is_linked = r.random() < 0.5
             tl.offset = r.choice([0, 100, 1000])
         elif k == "axis_title":
@@ -826,7 +827,8 @@ def op_chart_fmt(run):
         pl.has_data_labels = r.random() < 0.8
         if pl.has_data_labels:
             dl = pl.data_labels
-            dl.number_format = r.choice(["0.00", "General", "0%"])
+            if r.random() < 0.7:
+                dl.number_format = r.choice(["0.00", "General", "0%"])
             dl.number_format_is_linked = r.random() < 0.5
             dl.show_value = r.random() < 0.5
             dl.show_category_name = r.random() < 0.5
